@@ -204,3 +204,36 @@ Theorem C13Bls_sparse_roundtrip : forall p, pinv p -> t_n (p_tree p) <= 32768 ->
     pinv q /\ p_bits q = p_bits p.
 Proof. exact sparse_roundtrip. Qed.
 Print Assumptions C13Bls_sparse_roundtrip.
+
+From GV Require Import Proofs.BlsTreeClosed Proofs.BlsTreeCanon Proofs.BlsTreeWitness2.
+
+(** Every proof reachable through the API satisfies the invariant AND is closed: a set node whose parent is not
+    set has a keyed, unset sibling (the cascade of Tree.AddSignature always aggregates what it can). *)
+Theorem C13Bls_reachable_closed : forall ops r p,
+  reg_get (regs_after [] ops) r = Some p -> pinv p /\ pcl p.
+Proof. exact reachable_pinv_pcl. Qed.
+Print Assumptions C13Bls_reachable_closed.
+
+(** In a closed tree the maximal set nodes are exactly the canonical nodes of the bit set: full (has a real leaf,
+    all real leaves signed) with a parent that is not full.  So the sparse form is a function of the bits. *)
+Theorem C13Bls_maximal_is_canonical : forall msg h t d off, inv msg h t -> closed h t -> (d <= h)%nat -> off < p2 d ->
+  (maxb h (t_sigs t) d off = true <-> canon h (t_n t) (t_bits t) d off).
+Proof. exact max_canon. Qed.
+Print Assumptions C13Bls_maximal_is_canonical.
+
+Theorem C13Bls_sparse_canonical : forall p q ids ids', pinv p -> pcl p -> pinv q -> pcl q ->
+  t_n (p_tree p) = t_n (p_tree q) -> p_bits p = p_bits q ->
+  sparse_indices (p_tree p) = Ok ids -> sparse_indices (p_tree q) = Ok ids' -> Permutation ids ids'.
+Proof. exact sparse_canonical. Qed.
+Print Assumptions C13Bls_sparse_canonical.
+
+(** (3), second half: the derived proof after MergeSparse(AsSparse p) lists the same ids as p (idempotence of the
+    sparse form), for n <= 32768; the hypotheses hold for every reachable proof (C13Bls_reachable_closed). *)
+Theorem C13Bls_sparse_roundtrip_ids : forall p, pinv p -> pcl p -> t_n (p_tree p) <= 32768 ->
+  exists ids q ids',
+    sparse_indices (p_tree p) = Ok ids /\
+    merge_sparse (derive p) (p_hash p) (map (sparse_entry_of p) ids) =
+      Ok (q, mk_flags true (0 <? popcount (p_bits p)) false) /\
+    p_bits q = p_bits p /\ sparse_indices (p_tree q) = Ok ids' /\ Permutation ids' ids.
+Proof. exact sparse_roundtrip_ids. Qed.
+Print Assumptions C13Bls_sparse_roundtrip_ids.
